@@ -70,6 +70,8 @@ var abortSentinel = abortT{}
 
 // Sched is one execution.
 type Sched struct {
+	sends []sendCount // completed sends per channel (see SendsDone)
+	noted []unsafe.Pointer // objects created by rewritten code, in creation order (see NoteObj)
 	threads         []*Thread
 	cur             *Thread
 	prefix          []int
@@ -436,6 +438,13 @@ func (s *Sched) switchFrom(t *Thread) {
 		}
 	} else if yielding {
 		t.spin = 0
+		// the default continuation after a yield is the thread that has waited longest (two threads that
+		// spin politely on a lock must not pass the turn to each other for ever while its holder starves)
+		for i := 1; i < len(enabled); i++ {
+			for j := i; j > 0 && enabled[j].lastOp < enabled[j-1].lastOp; j-- {
+				enabled[j], enabled[j-1] = enabled[j-1], enabled[j]
+			}
+		}
 	}
 	ordinary := len(enabled)
 	for _, x := range s.threads {
@@ -651,6 +660,17 @@ func Gosched() {
 	PointOp(&Op{Kind: "runtime.Gosched", yield: true})
 }
 
+// SleepPoint is the model of time.Sleep: like Gosched it offers the turn to everybody else (a loop
+// that sleeps between attempts is a polite waiting loop).
+//
+//go:norace
+func SleepPoint() {
+	if cur == nil {
+		return
+	}
+	PointOp(&Op{Kind: "time.Sleep", yield: true})
+}
+
 // OrdinaryEnabled reports whether some ordinary (non-environment) thread can make a step right now. Environment
 // threads use it to tell a voluntary event (bounded) from one without which the execution would be stuck.
 //
@@ -718,6 +738,7 @@ func Run(cfg RunConfig, body func(s *Sched)) *Exec {
 	closedChans = closedChans[:0]
 	closedKeep = closedKeep[:0]
 	resetGlobals()
+	notedSetup = notedSetup[:0]
 	inSetup = true
 	body(s)
 	inSetup = false
@@ -795,6 +816,9 @@ func resetGlobals() {
 
 //go:norace
 func start(s *Sched) {
+	for _, p := range notedSetup { // creation numbers continue from the set-up phase
+		s.noted = pushPtr(s.noted, p)
+	}
 	cur = s
 	// the first decision: which thread starts
 	var enabled []*Thread
